@@ -540,6 +540,15 @@ class GCProg(SOCProg):
 
         return table.fillna('-')
 
+    def lp_export(self):
+
+        if len(self.xmat) > 0 or len(self.lmi) > 0:
+            msg = 'The LP format cannot express exponential or semidefinite '
+            msg += 'cone constraints; export to_socp() of the formula instead.'
+            raise ValueError(msg)
+
+        return super().lp_export()
+
     def to_socp(self, degree=4, cuts=(-30, 60)):
 
         num_vars = 1 + 4 + degree + 3
